@@ -318,6 +318,9 @@ def run(ctx):
                         if not pv or symx.plain(symx.field_of(lin.p_str(pv[-1][2]), "next")) != symx.plain(lin.p_str(ev_[2])):
                             bad6["prev-trails"] = "`prev` does not trail `entry` along the chain: a chained entry would be deleted as if it were another"
                 if ev_[0] == "branch":
+                    flat_ = " ".join(str(y_) for y_ in ev_[1])
+                    if re.search(r"key\[", flat_) and "keycmp" not in flat_:
+                        bad6["raw-bytes"] = "key bytes are compared directly (%s) instead of through the comparator of the table's case mode: in a case-insensitive table keys that differ only in case are told apart" % flat_[:80]
                     sig.append(("B", tuple(re.sub(r"@L\d+", "@L", re.sub(r"keycmp_(no)?case", "CMP", y)) if isinstance(y, str) else y for y in ev_[1]), ev_[2]))
                 elif ev_[0] == "call":
                     sig.append(("C", re.sub(r"keycmp_(no)?case", "CMP", ev_[1]), tuple(re.sub(r"@L\d+", "@L", a_) for a_ in ev_[2])))
@@ -329,6 +332,7 @@ def run(ctx):
             ctx.check(r6, ncmp[cal] >= 1, key(f, cal), f.where(f.root), "expected a comparison with %s" % cal)
             for k_ in (":len-first", ":mode", ":args"):
                 ctx.check(r6, (cal + k_) not in bad6, key(f, cal + k_), f.where(f.root), bad6.get(cal + k_, ""))
+        ctx.check(r6, "raw-bytes" not in bad6, key(f, "raw-bytes"), f.where(f.root), bad6.get("raw-bytes", ""))
         ctx.check(r6, steps >= 2, key(f, "walk"), f.where(f.root), "bucket walk does not step along entry->next in both modes")
         ctx.check(r6, sigs[True] == sigs[False] and len(sigs[True]) >= 3, key(f, "mode-twins"), f.where(f.root), "the case-sensitive and case-insensitive walks differ: %s" % sorted(sigs[True] ^ sigs[False], key=str)[:1])
         if f is delete:
